@@ -74,6 +74,10 @@ type Case struct {
 	// Warm is the number of Garble+Release pairs executed on the circuit
 	// before the goroutines start; 0 = the lazy pool creation is raced.
 	Warm    int      `json:"warm"`
+	// Pad adds that many unused gates in front of the circuit: building
+	// the scratch pool walks the gate list, so a long list widens the
+	// window in which concurrent first uses of the circuit overlap.
+	Pad int `json:"pad,omitempty"`
 	Inputs  []string `json:"inputs"`
 	Scripts [][]Op   `json:"scripts"`
 }
@@ -82,6 +86,26 @@ func init() { ev.Register("share", run) }
 
 var opKinds = []string{opGER, opGER, opGER, opGER, opHold, opHold, opHold,
 	opGRR, opCmp, opFail}
+
+// genFirstUse draws cases aimed at the lazy creation of the scratch pool: a
+// circuit with a long (padded) gate list, no warm-up, 2-4 goroutines that each
+// garble, evaluate and release once.  Walking the gate list takes long enough
+// that the first uses really overlap.
+func genFirstUse(t *rapid.T) Case {
+	var cs Case
+	o := gen.CircOpts{MinArgs: 1, MaxArgs: 2, MaxWidth: 4, MaxGates: 30, MaxOuts: 2, MaxOutWidth: 3}
+	cs.Circ = gen.DrawCirc(t, o)
+	cs.KeyLen = rapid.SampledFrom([]int{16, 24, 32}).Draw(t, "keylen")
+	cs.Seed = rapid.Uint64().Draw(t, "seed")
+	cs.Pad = rapid.SampledFrom([]int{20000, 60000, 150000}).Draw(t, "pad")
+	cs.Inputs = []string{gen.BitsOf(gen.DrawBits(t, cs.Circ.NumIn(), "in"))}
+	g := rapid.IntRange(2, 4).Draw(t, "goroutines")
+	cs.Scripts = make([][]Op, g)
+	for gi := range cs.Scripts {
+		cs.Scripts[gi] = []Op{{K: opGER, Y: rapid.IntRange(0, 3).Draw(t, "yield")}}
+	}
+	return cs
+}
 
 func genCase(t *rapid.T) Case {
 	var cs Case
@@ -96,15 +120,17 @@ func genCase(t *rapid.T) Case {
 	cs.KeyLen = rapid.SampledFrom([]int{16, 24, 32}).Draw(t, "keylen")
 	cs.Seed = rapid.Uint64().Draw(t, "seed")
 	cs.Warm = rapid.SampledFrom([]int{0, 0, 0, 1, 2}).Draw(t, "warm")
+
 	nin := cs.Circ.NumIn()
 	ninputs := rapid.IntRange(1, 4).Draw(t, "ninputs")
 	for i := 0; i < ninputs; i++ {
 		cs.Inputs = append(cs.Inputs, gen.BitsOf(gen.DrawBits(t, nin, "in")))
 	}
-	g := rapid.IntRange(2, 16).Draw(t, "goroutines")
+	maxG, maxOps := 16, 8
+	g := rapid.IntRange(2, maxG).Draw(t, "goroutines")
 	cs.Scripts = make([][]Op, g)
 	for gi := range cs.Scripts {
-		n := rapid.IntRange(1, 8).Draw(t, "nops")
+		n := rapid.IntRange(1, maxOps).Draw(t, "nops")
 		for oi := 0; oi < n; oi++ {
 			op := Op{K: rapid.SampledFrom(opKinds).Draw(t, "op")}
 			op.In = rapid.IntRange(0, ninputs-1).Draw(t, "input")
@@ -467,7 +493,7 @@ func (k *worker) script(ops []Op) {
 }
 
 func run(cs Case) ev.Outcome {
-	c := cs.Circ
+	c := cs.Circ.Padded(cs.Pad)
 	w := &world{cs: cs, c: c, nin: c.NumIn(), nw: c.NumWires(), nout: c.NumOut()}
 	w.circ = c.Build()
 	w.key = gen.NewDRBG(cs.Seed, 2).Bytes(cs.KeyLen)
@@ -847,6 +873,10 @@ func TestShare(t *testing.T) {
 		col.Note("test binary built WITHOUT -race: the race-detector oracle was inactive, only the functional oracles ran")
 	}
 	ev.Check(t, col, "share", genCase, run)
+}
+
+func TestFirstUse(t *testing.T) {
+	ev.Check(t, ev.Get(prop), "share", genFirstUse, run)
 }
 
 func TestReplay(t *testing.T) { ev.Replay(t, ev.Get(prop)) }
